@@ -49,7 +49,7 @@ func (f *FnVC) calleeKeys(c *ssa.CallCommon) (keys []string, fn *ssa.Function, d
 	case *ssa.Builtin:
 		return nil, nil, "builtin " + v.Name()
 	}
-	return nil, nil, "dynamic call " + c.Value.Name()
+	return nil, nil, dynCallName(c.Value)
 }
 
 func (f *FnVC) call(st *State, instr ssa.Instruction, c *ssa.CallCommon, pos token.Pos) Val {
